@@ -7,7 +7,10 @@ MORE = [(['yalafi.parser.Parser.init_extractions',
           'yalafi.defs.Expandable.__init__.<locals>.check',
           # anchor "main text dropped when extracting": the flows handed out
           # by parse refer to the document, none to the definition text
-          'yalafi.parser.Parser.parse'],
+          'yalafi.parser.Parser.parse',
+          # "occurrences in ... skipped regions are not reported", each
+          # occurrence once: the skip loop copies no token twice
+          'yalafi.parser.Parser.parser_work'],
          ['contracts.c_externs', 'contracts.c_utils', 'contracts.c_scanner',
           'contracts.c_parser', 'contracts.c_tex2txt',
           'contracts.c_handlers'])]
